@@ -343,13 +343,14 @@ fn fe_record(case: &FeCase, scratch: &str, lsp: &Session, lsp_root: &str) -> Val
   let lrel = format!("{}/t.{}", case.id, ls.ext);
   let _ = lsp_root;
   lsp.open(&lrel, ls.lang, 1, &case.text);
-  let quiet = lsp.wait_quiescent(25, 5000);
+  let quiet = lsp.wait_handlers(&lrel, 1, 10000);
   let pubs = lsp.published(&lrel);
   let lspv = match pubs.last() {
     Some((_, _, d)) => lsp_findings(d),
     None => json!([]),
   };
   lsp.close(&lrel);
+  lsp.wait_handlers(&lrel, 2, 10000);
   fe.insert("lsp".to_string(), lspv);
   exits.insert("lsp".to_string(), json!({"code": if quiet { 0 } else { 124 }, "npub": pubs.len()}));
   json!({"kind": "fe", "id": case.id, "lang": ls.lang, "first_lang_ok": first_lang_ok, "astral": case.astral, "rules": meta,
@@ -381,7 +382,7 @@ fn run_history(id: &str, sent: &[Value], outside: bool, mode: &str, allowed: &Va
     _ => 0,
   };
   let s = Session::start(&yaml_of(&docs), &base, delay, threads);
-  let rel = if outside { "/var/tmp/agv-elsewhere/h.js".to_string() } else { "h.js".to_string() };
+  let rel = if outside { format!("{}-outside/h.js", s.base) } else { "h.js".to_string() };
   let mut msgs = vec![];
   for m in sent {
     let text = hist_text(m["text"].as_u64().unwrap() as usize);
@@ -394,15 +395,17 @@ fn run_history(id: &str, sent: &[Value], outside: bool, mode: &str, allowed: &Va
     };
     msgs.push(v);
   }
+  // completion is observed through the lsp_handler_done hook: one event per notification, whatever the load
   let mut quiet = true;
   if mode == "seq" {
-    for m in msgs {
+    for (k, m) in msgs.into_iter().enumerate() {
       s.send_batch(vec![m]);
-      quiet &= s.wait_quiescent(15, 4000);
+      quiet &= s.wait_handlers(&rel, k + 1, 8000);
     }
   } else {
+    let n = msgs.len();
     s.send_batch(msgs);
-    quiet &= s.wait_quiescent(60 + delay, 6000);
+    quiet &= s.wait_handlers(&rel, n, 8000);
   }
   // is the server still alive?  a request must be answered
   let alive = s.request("workspace/executeCommand", json!({"command": "no-such-command", "arguments": []}), 3000).is_some();
@@ -517,6 +520,7 @@ pub fn drive(vectors: &str, seed: u64, out: &str, thorough: bool) {
     w.put(r);
   }
   let _ = std::fs::remove_dir_all(&scratch);
+  let _ = std::fs::remove_file(crate::lsp::hook_file());
   let n = w.finish();
   util::summary(json!({"records": n, "fe": n_fe, "hist_model": n_model, "hist_random": jobs.len() - n_model, "histories_in_model": keys.len()}));
 }
